@@ -774,12 +774,14 @@ nnls_normal_block3(cholmod_sparse *AtA, cholmod_dense *Atb, int verbose,
         long nFprime, nGprime, nF_, nG_;
         int i, j, k;
         int iter, max_iter, solves, residual_calcs;
-        int feasible;
+        int feasible, full_solve;
         clock_t t0, t1;
         double kkt_tolerance, y_min, residual;
 
         /* XXX: make these settable? */
         max_iter = 120;                /* Maximum number of iterations */
+        /* Whether x[F] is the unconstrained minimiser on the free set */
+        full_solve = true;
         solves = 0;
         residual_calcs = 0;
         residual = DBL_MAX;
@@ -916,9 +918,13 @@ nnls_normal_block3(cholmod_sparse *AtA, cholmod_dense *Atb, int verbose,
 
                 /*
                  * If we've satisfied the KKT conditions, we're done. 
+                 * The multipliers only tell the whole story if the last
+                 * step was a complete solve on the free set; after a
+                 * partial (projected) step along the descent vector the
+                 * gradient on the free set has not vanished yet.
                  */
 
-                if (nH2 == 0) break;
+                if (nH2 == 0 && full_solve) break;
 
                 ninf = nH1 + nH2;
 
@@ -1023,6 +1029,7 @@ nnls_normal_block3(cholmod_sparse *AtA, cholmod_dense *Atb, int verbose,
                                             ((double*)(x_F->x))[i];
                                 cholmod_l_free_dense(&x_F, c);
                                 feasible = true;
+                                full_solve = true;
 
                                 if (verbose)
                                         printf("\tSolution entirely "
@@ -1089,6 +1096,7 @@ nnls_normal_block3(cholmod_sparse *AtA, cholmod_dense *Atb, int verbose,
                                 feasible = walk_descents(AtA_F, Atb_F, x, x_F,
                                     F, &nF, H1, &nH1, &residual,
                                     &residual_calcs, verbose, c);
+                                full_solve = false;
 
                         } /* if (nF_inf == 0) */
 
